@@ -106,6 +106,11 @@ impl IndexRead {
         if entries.is_empty() {
             // It's legal, it's just weird - and it can be produced by some old Conserve versions.
         }
+        for entry in &entries {
+            entry.check().map_err(|details| Error::InvalidMetadata {
+                details: format!("Index hunk {path}: {details}"),
+            })?;
+        }
         Ok(Some(entries))
     }
 
